@@ -100,6 +100,11 @@ type auCall struct {
 	// the OTHER configured registry; "unconf" = a name nothing is configured for.  The URL - where the
 	// request is actually sent - is H's in every case, and so are the credentials that may travel.
 	HostHdr string `json:"hosthdr"`
+	// Shape: how the caller built its *http.Request.  0: http.NewRequest.  1: by hand, &http.Request{Method, URL}
+	// with a nil Header (nil Body, or the body and ContentLength -1).  2: by hand, its Header map shared with
+	// another request of the caller's, holding multi-valued and non-canonical keys.  3: http.NewRequest, then
+	// http.NoBody / ContentLength -1, Close, a Trailer.
+	Shape int `json:"shape"`
 }
 
 type auStep struct {
@@ -479,6 +484,10 @@ func auRandScen(rnd *rand.Rand, timed bool, maxTick int, conc bool) auScen {
 			}
 			call.Body = []string{"none", "none", "plain", "getbody"}[rnd.Intn(4)]
 			call.HostHdr = auHostHdr(rnd)
+			call.Shape = []int{0, 0, 0, 2, 3}[rnd.Intn(5)]
+			if auNilHdrAny && rnd.Intn(3) == 0 {
+				call.Shape = 1
+			}
 			first := auRegAns{Status: 200}
 			switch x := rnd.Intn(100); {
 			case x < 60:
@@ -580,6 +589,39 @@ func auExpiryScen(rnd *rand.Rand, maxTick int) auScen {
 	return sc
 }
 
+// auNilHdrAny (-nilhdr): hand-built requests with a nil Header also in ordinary scenarios, where the
+// transport has credentials to add (the unchanged tree panics there; see auShapeScen).
+var auNilHdrAny bool
+
+// auShapeScen: calls with hand-built requests whose Header is nil.  The unchanged transport panics on such a
+// request as soon as it has an Authorization header to add (assignment to entry in nil map), so these
+// scenarios are scripted so that it never has one: no static token, and no registry answer carries a
+// challenge the host's configuration could answer.
+func auShapeScen(rnd *rand.Rand) auScen {
+	sc := auScen{Cfg: map[string]string{}, Src: "rand-shapes"}
+	for _, h := range auHosts {
+		sc.Cfg[h] = []string{"none", "none", "basic", "cfgerr"}[rnd.Intn(4)]
+	}
+	n := 2 + rnd.Intn(4)
+	for i := 0; i < n; i++ {
+		h := auHosts[rnd.Intn(len(auHosts))]
+		c := auCall{H: h, Req: auSubset(rnd, 2), Want: auSubset(rnd, 1), Form: rnd.Intn(5), HostHdr: auHostHdr(rnd),
+			Body: []string{"none", "none", "plain", "getbody"}[rnd.Intn(4)], Shape: []int{1, 1, 1, 2, 3, 0}[rnd.Intn(6)]}
+		first := auRegAns{Status: []int{200, 200, 403, 404, -1}[rnd.Intn(5)]}
+		if rnd.Intn(2) == 0 {
+			first = auRegAns{Status: 401, Offers: [][]auOffer{{}, {{Scheme: "other", Realm: "-"}}, {{Scheme: "bad", Realm: "-"}},
+				{{Scheme: "bad", Realm: "-"}, {Scheme: "other", Realm: "-"}}}[rnd.Intn(4)]}
+			if sc.Cfg[h] == "none" && rnd.Intn(3) == 0 { // a Basic challenge nobody can answer
+				first.Offers = []auOffer{{Scheme: "basic", Realm: "-"}}
+			}
+		}
+		c.Reg = []auRegAns{first, {Status: 200}}
+		c.Tok = []auTokAns{}
+		sc.Steps = append(sc.Steps, auStep{At: 0, Calls: []auCall{c}})
+	}
+	return sc
+}
+
 // auLockWaitScen: a short-lived token T for {b} is cached; then call A (required scope {a}, not covered)
 // starts a token acquisition that the token server answers only after T has expired - auth.go holds the
 // host's lock all that time - and call B (required scope {b}) enters RoundTrip while T still has more than
@@ -659,7 +701,7 @@ func auFromWalk(w auWalk, rnd *rand.Rand) auScen {
 		case "call":
 			sort.Strings(o.Req)
 			sort.Strings(o.Want)
-			sc.Steps = append(sc.Steps, auStep{At: o.At, Calls: []auCall{{H: o.H, Req: o.Req, Want: o.Want, Body: o.Body, Form: rnd.Intn(5), HostHdr: auHostHdr(rnd)}}})
+			sc.Steps = append(sc.Steps, auStep{At: o.At, Calls: []auCall{{H: o.H, Req: o.Req, Want: o.Want, Body: o.Body, Form: rnd.Intn(5), HostHdr: auHostHdr(rnd), Shape: []int{0, 0, 0, 2, 3}[rnd.Intn(5)]}}})
 			if o.At > 0 {
 				sc.Timed = true
 			}
@@ -1036,56 +1078,77 @@ func auScope(names []string, form int) ociauth.Scope {
 	return ociauth.ParseScope(auScopeText(names, form))
 }
 
+// auSnap is a deep snapshot of everything observable on the caller's request.
 type auSnap struct {
-	url, method, host string
-	hdr               http.Header
-	body              io.ReadCloser
-	hasGetBody        bool
-	clen              int64
+	url, method, host, proto string
+	hdrNil, trailerNil       bool
+	hdr, trailer, sibling    http.Header
+	body                     io.ReadCloser
+	bodyCloses               int
+	hasGetBody, close        bool
+	formNil, postFormNil     bool
+	mpNil, tlsNil, respNil   bool
+	clen                     int64
+	te                       string
+	ctx                      context.Context
+	urlPtr                   *url.URL
 }
 
-func auSnapshot(q *http.Request) auSnap {
-	return auSnap{url: q.URL.String(), method: q.Method, host: q.Host, hdr: q.Header.Clone(), body: q.Body, hasGetBody: q.GetBody != nil, clen: q.ContentLength}
+func auBodyCloses(b io.ReadCloser) int {
+	if ab, ok := b.(*auBody); ok {
+		ab.mu.Lock()
+		defer ab.mu.Unlock()
+		return ab.closes
+	}
+	return 0
 }
 
-func (a auSnap) diff(q *http.Request) string {
-	var d []string
-	if q.URL.String() != a.url {
-		d = append(d, "url")
+// sib: another request of the caller's that shares the Header map (nil: none)
+func auSnapshot(q *http.Request, sib *http.Request) auSnap {
+	a := auSnap{url: q.URL.String(), urlPtr: q.URL, method: q.Method, host: q.Host, proto: q.Proto, hdrNil: q.Header == nil, hdr: q.Header.Clone(),
+		trailerNil: q.Trailer == nil, trailer: q.Trailer.Clone(), body: q.Body, bodyCloses: auBodyCloses(q.Body), hasGetBody: q.GetBody != nil,
+		close: q.Close, formNil: q.Form == nil, postFormNil: q.PostForm == nil, mpNil: q.MultipartForm == nil, tlsNil: q.TLS == nil,
+		respNil: q.Response == nil, clen: q.ContentLength, te: strings.Join(q.TransferEncoding, ","), ctx: q.Context()}
+	if sib != nil {
+		a.sibling = sib.Header.Clone()
 	}
-	if q.Method != a.method {
-		d = append(d, "method")
+	return a
+}
+
+func auSameHeader(a, b http.Header) bool {
+	if len(a) != len(b) {
+		return false
 	}
-	if q.Host != a.host {
-		d = append(d, "host")
-	}
-	if q.Body != a.body {
-		d = append(d, "body")
-	}
-	if (q.GetBody != nil) != a.hasGetBody {
-		d = append(d, "getbody")
-	}
-	if q.ContentLength != a.clen {
-		d = append(d, "contentlength")
-	}
-	if len(q.Header) != len(a.hdr) {
-		d = append(d, "headers")
-	} else {
-		for k, v := range a.hdr {
-			w := q.Header[k]
-			if len(v) != len(w) {
-				d = append(d, "header:"+k)
-				continue
-			}
-			for i := range v {
-				if v[i] != w[i] {
-					d = append(d, "header:"+k)
-					break
-				}
+	for k, v := range a {
+		w, ok := b[k]
+		if !ok || len(v) != len(w) || (v == nil) != (w == nil) {
+			return false
+		}
+		for i := range v {
+			if v[i] != w[i] {
+				return false
 			}
 		}
 	}
-	return strings.Join(d, ",")
+	return true
+}
+
+// same compares the caller's request after RoundTrip with the snapshot, field by field (nil-ness included).
+// The body is the one field RoundTrip may use: it must still be the same object.
+func (a auSnap) same(q *http.Request, sib *http.Request) map[string]bool {
+	m := map[string]bool{
+		"method": q.Method == a.method, "url": q.URL == a.urlPtr && q.URL.String() == a.url, "host": q.Host == a.host, "proto": q.Proto == a.proto,
+		"hdrnil": (q.Header == nil) == a.hdrNil, "hdr": auSameHeader(a.hdr, q.Header),
+		"trailernil": (q.Trailer == nil) == a.trailerNil, "trailer": auSameHeader(a.trailer, q.Trailer),
+		"body": q.Body == a.body, "getbody": (q.GetBody != nil) == a.hasGetBody, "clen": q.ContentLength == a.clen, "close": q.Close == a.close,
+		"form": (q.Form == nil) == a.formNil, "postform": (q.PostForm == nil) == a.postFormNil, "multipart": (q.MultipartForm == nil) == a.mpNil,
+		"tls": (q.TLS == nil) == a.tlsNil, "response": (q.Response == nil) == a.respNil, "te": strings.Join(q.TransferEncoding, ",") == a.te,
+		"ctx": q.Context() == a.ctx, "sibling": true,
+	}
+	if sib != nil {
+		m["sibling"] = auSameHeader(a.sibling, sib.Header)
+	}
+	return m
 }
 
 // doCall makes one call through the transport under test.
@@ -1113,9 +1176,39 @@ func (r *auRun) doCall(tr http.RoundTripper, slot int, call *auCall, at int, beg
 		method = []string{"PUT", "POST", "PATCH", "PUT", "POST"}[call.Form%5]
 		body = newBody()
 	}
-	hreq, err := http.NewRequestWithContext(ctx, method, "http://"+r.concrete(call.H)+"/v2/a/manifests/latest", body)
-	if err != nil {
-		panic(err)
+	target := "http://" + r.concrete(call.H) + "/v2/a/manifests/latest"
+	var hreq, sibling *http.Request
+	switch call.Shape {
+	case 1, 2:
+		u, err := url.Parse(target)
+		if err != nil {
+			panic(err)
+		}
+		hreq = (&http.Request{Method: method, URL: u}).WithContext(ctx)
+		if body != nil {
+			hreq.Body = body
+			hreq.ContentLength = -1
+		}
+		if call.Shape == 2 {
+			shared := http.Header{"X-Trace": {"one", "two"}, "x-lower": {"kept as written"}, "Cookie": {"a=b"}}
+			hreq.Header = shared
+			sibling = &http.Request{Method: "GET", URL: u, Header: shared}
+		}
+	default:
+		var err error
+		hreq, err = http.NewRequestWithContext(ctx, method, target, body)
+		if err != nil {
+			panic(err)
+		}
+		if call.Shape == 3 {
+			if body == nil {
+				hreq.Body = http.NoBody
+			} else {
+				hreq.ContentLength = -1
+			}
+			hreq.Close = true
+			hreq.Trailer = http.Header{"X-Checksum": nil}
+		}
 	}
 	switch call.HostHdr {
 	case "other":
@@ -1127,16 +1220,18 @@ func (r *auRun) doCall(tr http.RoundTripper, slot int, call *auCall, at int, beg
 	case "unconf":
 		hreq.Host = "elsewhere.example:5000"
 	}
-	hreq.Header.Set("Accept", "application/vnd.oci.image.manifest.v1+json")
-	hreq.Header.Set("User-Agent", "verif-harness")
+	if hreq.Header != nil {
+		hreq.Header.Set("Accept", "application/vnd.oci.image.manifest.v1+json")
+		hreq.Header.Set("User-Agent", "verif-harness")
+	}
 	if call.Body == "getbody" {
 		hreq.GetBody = func() (io.ReadCloser, error) { return newBody(), nil }
 	} else {
 		hreq.GetBody = nil
 	}
-	snap := auSnapshot(hreq)
+	snap := auSnapshot(hreq, sibling)
 	r.mu.Lock()
-	r.log(auEv{"op": "begin", "c": slot, "h": call.H, "req": call.Req, "want": call.Want, "body": call.Body, "hosthdr": hreq.Host, "urlhost": hreq.URL.Host}, true)
+	r.log(auEv{"op": "begin", "c": slot, "h": call.H, "req": call.Req, "want": call.Want, "body": call.Body, "hosthdr": hreq.Host, "urlhost": hreq.URL.Host, "shape": call.Shape}, true)
 	r.mu.Unlock()
 	if begun != nil { // every call of the batch has begun before any of them proceeds
 		begun.Done()
@@ -1172,8 +1267,7 @@ func (r *auRun) doCall(tr http.RoundTripper, slot int, call *auCall, at int, beg
 	}
 	nb := len(bodies)
 	bmu.Unlock()
-	d := snap.diff(hreq)
-	r.log(auEv{"op": "end", "c": slot, "status": status, "untouched": d == "", "diff": d, "unclosed": unclosed, "bodies": nb}, true)
+	r.log(auEv{"op": "end", "c": slot, "status": status, "same": snap.same(hreq, sibling), "unclosed": unclosed, "bodies": nb}, true)
 }
 
 // runScen executes a scenario once; ok=false: timing was outside the safe zone (timed scenarios only).
@@ -1261,6 +1355,7 @@ func authCmd(args []string) error {
 	replay := fs.String("replay", "", "replay file: re-execute its scenarios")
 	retries := fs.Int("retries", 3, "runs of a timed scenario whose timing left the safe zone")
 	par := fs.Int("par", 8, "untimed scenarios in progress together")
+	fs.BoolVar(&auNilHdrAny, "nilhdr", false, "nil-Header requests also where the transport adds credentials")
 	fs.Parse(args)
 	if *out == "" {
 		return errors.New("-out required")
@@ -1318,6 +1413,8 @@ func authCmd(args []string) error {
 				s = auExpiryScen(rnd, *maxTick)
 			} else if i >= *n && (i-*n)%4 == 3 {
 				s = auLockWaitScen(rnd, *maxTick)
+			} else if i < *n && i%6 == 5 {
+				s = auShapeScen(rnd)
 			} else {
 				s = auRandScen(rnd, i >= *n, *maxTick, true)
 			}
